@@ -52,7 +52,7 @@ func verifC17SameBytes(a, b []byte) bool {
 	return diff == 0
 }
 
-//verif:harness prop=C17 reach=done,leafpage,innerpage,mixedpage unwind=40 budget=480 thorough.budget=900
+//verif:harness prop=C17 reach=done,leafpage,innerpage,mixedpage unwind=40 budget=300 thorough.budget=900
 //verif:stub github.com/algorand/go-algorand/crypto.Hash = verifC17Hash
 func VerifC17EncodePageModel() {
 	mt, err := MakeTrie(&InMemoryCommitter{}, verifC17Configs[0])
